@@ -5,6 +5,12 @@ import json
 BASELINE = "cd /repo && go test -mod=mod -json -vet=off -count=1 -timeout 25m ./..."
 
 CHECKS = {
+ "C14": dict(
+  engine="E3 product enumerator",
+  technique="exhaustive enumeration of Annex B streams (every NAL unit size, every start-code length pattern, content classes, all type sequences) against a byte-at-a-time reference scanner and the generating unit list",
+  text="Streams of 1-3 (thorough: 4) NAL units with every size 1..20 (26), every start-code length pattern in {3,4}^n and three content classes (filler, interior zeros, interior 00 00 03), plus all type sequences of length <= 4 over the AVC and HEVC type alphabets, are pushed through ExtractNalusFromByteStream, ConvertByteStreamToNaluSample, ConvertSampleToByteStream, GetNalusFromSample, FindNaluTypes[UpToFirstVideo], ContainsNaluType, IsIDR/IsRAP, HasParameterSets, GetParameterSets[FromByteStream], ExtractNalusOfTypeFromByteStream and GetFirstAVCVideoNALUFromByteStream; every result must equal what the generating unit list implies.",
+  note="Well-formed streams only (units non-empty, emulation-free, last byte non-zero, NAL type 0 excluded). Sizes are bounded; the word-at-a-time scanner is exercised at every alignment modulo 8 and every tail length.",
+  design="3 C14"),
  "C01": dict(
   engine="E1 box-space search (explicit-state over byte strings, isolated workers)",
   technique="explicit-state search: states = accepted byte strings reached from ~1000 box seeds and ~40 file seeds by single deviations (byte, struct and tree level); oracle on every state: re-encode == input outside the committed don't-care list, re-decode deep-equal, re-encode fixed point",
